@@ -59,8 +59,8 @@ def shape(x):
     return [(t["t"], t["s"], t["n"]) for t in x["toks"]], x["errs"], x["cond"]
 
 
-def run(c, quick, prop, only=None):
-    gen = os.path.join(vf.lib_dir("plain"), "gen")
+def run(c, quick, prop, only=None, variant="plain"):
+    gen = os.path.join(vf.lib_dir(variant), "gen")
     env0 = {"LEX_RULES": os.path.join(gen, "lexer_rules.json"), "LEXEMES": os.path.join(gen, "lexemes.json")}
     n_texts = n_rel = drift = 0
     grammar_tokens = set(json.load(open(os.path.join(gen, "lr_tables.json")))["tokens"])
@@ -92,7 +92,7 @@ def run(c, quick, prop, only=None):
             extra = [ref]
         per = 2000
         jobs = [{"id": "%s_%d" % (name, k), "syntax": params["syntax"], "types": params["typenames"], "texts": (extra + texts)[k:k + per], "timeout": 300} for k in range(0, len(texts) + len(extra), per)]
-        res = vf.run_jobs(jobs, c.run_dir, variant="plain", harness="scan_run", name="scan_" + name)
+        res = vf.run_jobs(jobs, c.run_dir, variant=variant, harness="scan_run", name="scan_" + name)
         real = []
         for j in jobs:
             r = res[j["id"]]
@@ -157,7 +157,7 @@ def run(c, quick, prop, only=None):
                     tl.append(s.join(w))
                     lmeta.append((w, s))
             jobs = [{"id": "lay_%s_%d" % (name, k), "syntax": params["syntax"], "types": params["typenames"], "texts": tl[k:k + per], "timeout": 300} for k in range(0, len(tl), per)]
-            res = vf.run_jobs(jobs, c.run_dir, variant="plain", harness="scan_run", name="scanlay_" + name)
+            res = vf.run_jobs(jobs, c.run_dir, variant=variant, harness="scan_run", name="scanlay_" + name)
             out = []
             for j in jobs:
                 out += res[j["id"]].get("results") or [None] * len(j["texts"])
